@@ -342,6 +342,9 @@ class Ctx:
         for what, path, no_input in self.violations:
             if path in seen:
                 continue
+            if len(seen) >= 5:
+                log(f"   ... and {len(self.violations) - 5} more violation(s), see evidence")
+                break
             seen.add(path)
             print(f"VIOLATION property={self.prop} replay={path}" + (" no-failing-input-found" if no_input else ""))
             log("  ", what)
@@ -424,3 +427,24 @@ def first_leaf_text(xml):
         if len(e) == 0 and e.text is not None:
             return e.text
     return ""
+
+
+def triple_reqs(xml):
+    return [{"op": "set_mathml", "xml": xml}, {"op": "speech"}, {"op": "braille", "id": ""}]
+
+
+def canon_of(reply):
+    return strip_ids(reply.get("v", "")) if reply.get("r") == "ok" else {"r": reply.get("r"), "msg": (reply.get("msg") or reply.get("at") or "")[:200]}
+
+
+def triple_of(replies):
+    a, b, c = replies
+    return (canon_of(a), b.get("v") if b.get("r") == "ok" else {"r": b.get("r"), "msg": (b.get("msg") or b.get("at") or "")[:200]},
+            c.get("v") if c.get("r") == "ok" else {"r": c.get("r"), "msg": (c.get("msg") or c.get("at") or "")[:200]})
+
+
+PRELUDE = None
+
+
+def prelude(extra=()):
+    return [{"op": "rules_dir", "dir": rules_dir()}] + list(extra)
